@@ -5,9 +5,12 @@ import subprocess
 import sys
 import time
 
+import numpy as np
+
 import framework as fw
 import libif
 import c13lib
+from gen import members, sweep
 
 RULE = ("catalogue of ~450 API calls as plain data (the three MUB calls and the coupling graph for all 20 configurations, table "
         "lookups, preparation / readout for stabilizers in four formats, graph inputs, compression, classification, class "
@@ -115,6 +118,15 @@ class HistoryRunner:
                                   f"{spec['fn']} returns a result different from a fresh interpreter's after {len(self.history) - 1} earlier steps "
                                   f"({kind}); spec {json.dumps(spec)[:160]}; got {json.dumps(got)[:160]} expected {json.dumps(self.ref[i])[:160]}"))
         if raw is not None:
+            # reading the returned object a second time (ids, strings, graphs are recomputed by query methods) must give the same
+            try:
+                reread = {"ok": c13lib.canon(raw)}
+            except Exception as e:  # noqa: BLE001
+                reread = {"raised": type(e).__name__}
+            if reread != got:
+                self.problems.append((f"result-changes-on-reread:{spec['fn']}",
+                                      f"{spec['fn']}: the returned object answers differently when it is read a second time; spec {json.dumps(spec)[:160]}; "
+                                      f"first {json.dumps(got)[:140]} second {json.dumps(reread)[:140]}"))
             # the caller goes on using ITS objects (reuses the qubit list, extends the circuit, ...): the result must not follow
             try:
                 touched = c13lib.scramble_inputs(inp)
@@ -323,9 +335,62 @@ def shard_machine(arg):
     return rep
 
 
+def query_class_object(c, order):
+    out = {}
+    for q in order:
+        try:
+            if q == "id":
+                out.setdefault("id", []).append(int(c.id()))
+            elif q == "str":
+                out.setdefault("str", []).append(str(c))
+            elif q == "graph":
+                out.setdefault("graph", []).append(np.asarray(c.get_graph().adjacency_matrix).astype(int).tolist())
+            elif q == "eq":
+                out.setdefault("eq", []).append(bool(c == c))
+        except Exception as e:  # noqa: BLE001
+            out.setdefault(q, []).append(f"raises {type(e).__name__}")
+    return out
+
+
+def shard_requery(arg):
+    """LC class objects are values: every query (id, str, get_graph, ==) of one object, repeated and in any order, answers as a fresh
+    object of the same class queried once.  All class ids of n = 2..6 built from the id, and one constructed member per class through
+    determine_lc_class."""
+    n, ids, seed = arg
+    L = libif.lib()
+    rep = fw.Report()
+    cls = {2: L.lc.LCClass2, 3: L.lc.LCClass3, 4: L.lc.LCClass4, 5: L.lc.LCClass5, 6: L.lc.LCClass6}[n]
+    reps = members.orbit_reps(n)
+    for k in ids:
+        makers = [("from-id", lambda: cls(k))]
+        rng = fw.rng_for("c13rq", seed, n, k)
+        gens, _ = members.member(n, reps[k % len(reps)], rng)
+        st = sweep.make_stabilizer(n, gens, "strings+sign")
+        makers.append(("determine_lc_class", lambda: L.lc.determine_lc_class(st)))
+        for how, make in makers:
+            case = {"requery": how, "n": n, "id": k, "seed": seed, "strings": sweep.strings(gens, n) if how != "from-id" else None}
+            try:
+                single = {q: query_class_object(make(), [q])[q][0] for q in ("id", "str", "graph")}
+                order = [["id", "str", "eq", "graph", "id", "str", "graph"], ["graph", "id", "id", "str", "graph"], ["str", "str", "graph", "eq", "id"]][fw.h64("c13rqo", seed, n, k, how) % 3]
+                multi = query_class_object(make(), order)
+            except Exception as e:  # noqa: BLE001
+                rep.count("requery_raised", type(e).__name__)
+                continue
+            rep.case(("requery", how, n, k if how == "from-id" else tuple(case["strings"])), case if k % 97 == 3 else None)
+            rep.count("requery", f"{how}:n={n}")
+            for q in ("id", "str", "graph"):
+                if any(v != single[q] for v in multi.get(q, [])):
+                    rep.fail(f"requery:{q}", case, f"n={n} class object ({how}, id {single['id']}): {q} answers {[v if q != 'graph' else '...' for v in multi[q]]} "
+                             f"when queried in the order {order}, a fresh object answers {single[q] if q != 'graph' else '(another graph)'}")
+                    break
+    return rep
+
+
 def shard(arg):
     if arg[0] == "ref":
         return shard_ref(arg[1:])
+    if arg[0] == "requery":
+        return shard_requery(arg[1:])
     return shard_machine(arg[1:])
 
 
@@ -335,6 +400,10 @@ def run(ctx):
     ref = compute_references(ctx, specs, rep, 8 if ctx.quick else 16)
     n_ex, steps = (20, 30) if ctx.quick else (1500, 60)
     args = [("machine", ctx.seed * 1000 + i, n_ex, steps, specs, ref, ctx.deadline) for i in range(16)]
+    kc = {2: 2, 3: 5, 4: 18, 5: 93, 6: 760}
+    for n in (6, 5, 4, 3, 2):
+        for chunk in fw.split(list(range(kc[n])), 8 if n == 6 else 1):
+            args.append(("requery", n, chunk, ctx.seed))
     rep.merge(fw.run_shards(ctx, "props.c13", "shard", args))
     rep.extra.pop("ref", None)
     rep.extra["catalogue_size"] = len(specs)
@@ -349,6 +418,9 @@ def replay(case):
             return {i: res[str(i)] for i in range(len(specs))}
         probs = run_history(case["history"], lookup)
         return [{"key": k, "msg": m, "case": case} for k, m in probs]
+    if "requery" in case:
+        r = shard_requery((case["n"], [case["id"]], case.get("seed", 1)))
+        return [f for f in r.failures if f["case"].get("requery") == case["requery"]]
     spec = case["spec"]
     a = fresh_results([spec], [0], 11)["0"]
     b = fresh_results([spec], [0], 977)["0"]
